@@ -103,6 +103,9 @@ pub fn run(args: &Args) {
                     let site = *rng.pick(&sites);
                     let size_bad = k % 11 == 10;
                     let n = if size_bad { rng.range(2, 60) as usize } else { (match k % 7 { 0 => 0, 1 => 1, 2 => if args.thorough { 1000 } else { 150 }, 3 => 1001, _ => rng.range(2, 60) }) as usize };
+                    // two archive listings of every run sit on the truncation boundary: 1,300 objects of which more than 1,000 lie under the
+                    // requested prefix (truncated: must be an error), and exactly 1,000 under the prefix and nothing else (complete: all listed)
+                    let (n, pure) = if k == 2 { (1300, false) } else if k == 5 { (1000, true) } else { (n, false) };
                     let vol = *rng.pick(&[5u64, 57, 1, 999, 500]);
                     let (y, m, d) = (2024, 1 + rng.below(12) as u32, 1 + rng.below(28) as u32);
                     let date = NaiveDate::from_ymd_opt(y, m, d).expect("date");
@@ -113,7 +116,7 @@ pub fn run(args: &Args) {
                         let name = if rng.chance(1, 6) { format!("{}{}", rng.pick(&specials), j) } else if realtime { format!("20240501-{:06}-{:03}-{}", j, 1 + j % 55, if j % 55 == 0 { "S" } else { "I" }) } else { format!("{}2024{:02}{:02}_{:06}_V06", site, m, d, j) };
                         let key = if size_bad { if realtime { format!("{}/{}/{}", site, vol, name) } else { format!("{}/{:02}/{:02}/{}/{}", y, m, d, site, name) } }
                                   else if realtime { let v = match rng.below(8) { 0 => vol * 10 + 7, 1 => vol + 1, _ => vol }; format!("{}/{}/{}", if rng.chance(1, 12) { "KDMY" } else { site }, v, name) }
-                                  else { format!("{}/{:02}/{:02}/{}/{}", y, m, if rng.chance(1, 10) { d + 1 } else { d }, if rng.chance(1, 12) { "KDMY" } else { site }, name) };
+                                  else { format!("{}/{:02}/{:02}/{}/{}", y, m, if !pure && rng.chance(1, 10) { d + 1 } else { d }, if !pure && rng.chance(1, 12) { "KDMY" } else { site }, name) };
                         let t = at(19_000 + rng.below(2000) as i64, rng.below(86_400_000) as i64);
                         let frac = rng.chance(1, 2);
                         let t = if frac { t } else { at(t.timestamp().div_euclid(86_400), t.timestamp().rem_euclid(86_400) * 1000) };
